@@ -149,7 +149,8 @@ def fixed_cases(tier="quick"):
                  [{"mode": 62, "enum_confirm": 1, "order_cfg": 3, "order_all_first": 1 + i} for i in range(24)])
     return (extra + [{"mode": 63, "enum_confirm": 1, "enum_cfg": c, "enum_gran": g} for c in range(len(ENUM_CFGS)) for g in (0, 1)] +
             [{"mode": 62, "enum_confirm": 1, "order_cfg": c} for c in range(len(ORDER_CFGS))] +
-            [{"mode": 61, "enum_confirm": 1, "layout_cfg": c} for c in range(len(LAYOUT_CFGS))])
+            [{"mode": 61, "enum_confirm": 1, "layout_cfg": c} for c in range(len(LAYOUT_CFGS))] +
+            [{"mode": 60, "enum_confirm": 1, "blank_cfg": c} for c in range(len(BLANK_STRIPE_CFGS))])
 
 
 def _enum_case(ch, out):
@@ -321,13 +322,57 @@ def _layout_case(ch, out):
     return out
 
 
+# ---- whole stripes without a single finite pixel --------------------------------------------------------------------
+BLANK_STRIPE_CFGS = (
+    dict(rows=48, cols=8, grid=(4, 4), box=(8, 8), cores=3, nslice=3, band=(0, 22)),      # first stripe and its halo blank
+    dict(rows=48, cols=8, grid=(4, 4), box=(8, 8), cores=3, nslice=3, band=(26, 48)),     # last stripe blank
+    dict(rows=64, cols=6, grid=(4, 2), box=(8, 4), cores=4, nslice=4, band=(12, 40)),     # the two middle stripes blank
+    dict(rows=32, cols=8, grid=(4, 4), box=(8, 8), cores=2, nslice=2, band=(0, 32)),      # everything blank
+)
+
+
+def _blank_stripe_case(ch, out):
+    """Images in which one or more whole stripes (halo included) hold no finite pixel, with masking on and off: the call
+    must terminate with complete maps under the canonical and two random schedules, bit-identically."""
+    c = BLANK_STRIPE_CFGS[ch.draw("blank_cfg", len(BLANK_STRIPE_CFGS))]
+    for mask in (True, False):
+        cfg = dict(rows=c["rows"], cols=c["cols"], grid=c["grid"], box=c["box"], cores=c["cores"], nslice=c["nslice"],
+                   mask=mask, naxis=2, nplanes=1, cube_index=0, bitpix=-32, bscale=None)
+        content = dict(seed=21, kind="noise", offset_pow=5, offset_neg=False, sigma_pow=0, blank="band", blank_inf=False,
+                       blank_seed=0, band_rows=c["band"])
+        img = bw.make_image(cfg, content)
+        fn = bw.write_image(bw.fresh_path("c07b"), cfg, img)
+        out.sample = {"blank_stripes": _cfg_str(cfg), "blank_rows": c["band"]}
+        try:
+            r0 = _run(fn, cfg, bw.canonical_sched(0, 0), ch, fill="payload")
+            _count(out, r0)
+            if not _basic(out, r0, cfg, "image with blank rows %s, canonical schedule" % (c["band"],)):
+                return out
+            for _ in range(2):
+                sched = bw.gen_sched(ch, 0, 0)
+                rv = _run(fn, cfg, sched, ch, fill="zeros" if ch.chance("fill_zero", 1, 2) else "payload")
+                _count(out, rv)
+                if not _basic(out, rv, cfg, "image with blank rows %s, %s schedule" % (c["band"], sched["profile"])):
+                    return out
+                out.stats["oracle:bit_identical_per_layout"] += 1
+                if not (_same_bits(rv.bkg, r0.bkg) and _same_bits(rv.rms, r0.rms)):
+                    out.violation("schedule-dependent", "image with blank rows %s (%s): maps differ between the canonical and a %s "
+                                  "schedule" % (c["band"], _cfg_str(cfg), sched["profile"]), sig=None, cfg=_cfg_str(cfg), layout=str(r0.layout))
+                    out.trace = _trace(rv)
+                    return out
+            out.stats["blank_stripe_runs"] += 3
+        finally:
+            bw.remove_quietly(fn)
+    return out
+
+
 def case(ch):
     out = Outcome()
     # the enumerations are the *fixed* cases of every batch (forced draws); a random case runs one only with
     # probability 1/32000, otherwise it is an ordinary random case
     mode = ch.draw("mode", 64)
-    if mode >= 61 and ch.draw("enum_confirm", 1000) == 1:
-        return _enum_case(ch, out) if mode == 63 else _order_case(ch, out) if mode == 62 else _layout_case(ch, out)
+    if mode >= 60 and ch.draw("enum_confirm", 1000) == 1:
+        return (_enum_case, _order_case, _layout_case, _blank_stripe_case)[63 - mode](ch, out)
     cfg = bw.gen_config(ch)
     content = bw.gen_content(ch, cfg)
     hot, line = bw.gen_yield_settings(ch)
